@@ -15,7 +15,11 @@ from concurrent.futures import ThreadPoolExecutor
 HERE = os.path.dirname(os.path.abspath(__file__))
 VERIF = os.path.dirname(HERE)
 sys.path.insert(0, HERE)
-from mutants import MUTANTS  # noqa: E402
+import glob
+import importlib
+MUTANTS = []
+for _f in sorted(glob.glob(os.path.join(HERE, 'mutants*.py'))):
+    MUTANTS += importlib.import_module(os.path.basename(_f)[:-3]).MUTANTS
 
 
 def run_one(m):
